@@ -117,6 +117,87 @@ base_required: 0,
     Ok(None)
 }
 
+const F3: &str = "C15-acknowledged-after-failed-append-lost";
+
+/// Directed fault scenario: records of several 32 KiB blocks; the first write to the commit log
+/// fails once with ENOSPC in the middle of such a record; later commits are acknowledged. Returns
+/// the witness if one of them is missing after a process crash at the end of the run.
+fn directed_f3(scratch: &std::path::Path) -> Result<Option<String>, String> {
+    let cfg = Cfg { flush_on_close: false, max_memtable_size: 1 << 20, ..Cfg::default() };
+    let w = Workload {
+        txns: 12,
+        committers: 1,
+        nkeys: 6,
+        max_value: 100_000,
+        immediate_pct: 0,
+        sync_every: 0,
+        close_at_end: false,
+        delete_pct: 0,
+        first_txn: 1,
+        big_batch_pct: 0,
+        manual_flush_every: 1000,
+        hook_rotate_pct: 0,
+        hook_flush_pct: 0,
+        stale_writer_after_failure: false,
+    };
+    let mut any_failed = false;
+    for ord in 0..4 {
+        let spec = format!("wal.write:{ord}:enospc:once");
+        let t = e2::run_worker(scratch, "f3", &cfg, &w, 177, Some(&spec), None)?;
+        let failed: Vec<u64> = t.failed.iter().map(|f| f.id).collect();
+        let first_failed = failed.iter().min().copied();
+        let acked_after = first_failed.map(|ff| t.txns.iter().filter(|x| x.id > ff && x.first_seq > 0).count()).unwrap_or(0);
+        any_failed |= !failed.is_empty();
+        if failed.is_empty() || acked_after == 0 {
+            // nothing failed at this position, or the store refuses everything after the failure
+            // (a sticky error is a permitted answer): nothing to lose
+            cleanup(scratch, "f3", &t);
+            continue;
+        }
+        let mut pr = Rng::new(1);
+        let plans: Vec<_> = e2::plan_images(&t, &mut pr, false, 1).into_iter().filter(|p| p.loss == crate::trace::Loss::Process).collect();
+        let last = plans.last().cloned().ok_or("no crash image")?;
+        let job = Job {
+            trace_file: scratch.join("f3.trace"),
+            root: t.root.clone(),
+            cfg: cfg.clone(),
+            txns: t.txns.iter().filter(|x| x.first_seq > 0).cloned().collect(),
+            failed: failed.clone(),
+            failed_recs: vec![],
+            base_required: 0,
+            plans: vec![last],
+            probe_every: 0,
+            base_dir: None,
+            keep_dir: None,
+        };
+        let jobfile = scratch.join("f3.job.json");
+        std::fs::write(&jobfile, serde_json::to_vec(&job.to_json()).unwrap()).map_err(|e| e.to_string())?;
+        let pool = e2::run_pool(&jobfile, 1, 1);
+        let _ = std::fs::remove_file(&jobfile);
+        let first_err = t.failed[0].err.clone();
+        cleanup(scratch, "f3", &t);
+        for res in pool.results {
+            for pb in res["problems"].as_array().cloned().unwrap_or_default() {
+                if pb[0] == "durability" {
+                    return Ok(Some(format!(
+                        "12 commits with values up to 100 KB (commit-log records of several blocks), write #{ord} to the commit log fails once with ENOSPC: commit of transaction {} returns an error ({}), {} later commits are acknowledged; after a process crash and restart: {}",
+                        failed[0],
+                        first_err,
+                        acked_after,
+                        pb[1].as_str().unwrap_or("")
+                    )));
+                }
+            }
+        }
+        return Ok(None);
+    }
+    if any_failed {
+        Ok(None)
+    } else {
+        Err("none of the injected write failures made a commit fail".into())
+    }
+}
+
 const F2: &str = "C15-flush-on-close-after-failed-manifest-sync";
 
 /// Directed fault scenario: the sync that follows the installation of a new manifest fails
@@ -236,6 +317,17 @@ pub fn run(a: &Args) -> i32 {
         }
         Err(e) => run.inconclusive(&format!("directed scenario {}: {}", F2, e)),
     }
+    match directed_f3(&scratch) {
+        Ok(None) => {}
+        Ok(Some(what)) => {
+            if crate::evidence::finding_open(&findings, F3) {
+                run.known_finding(F3, &what);
+            } else {
+                run.violation(&format!("directed scenario {}: {}", F3, what), json!({"engine": "c15", "scenario": F3}));
+            }
+        }
+        Err(e) => run.inconclusive(&format!("directed scenario {}: {}", F3, e)),
+    }
     let nbases = a.tier.pick(4, 12);
     let per_base = a.tier.pick(44, 400);
     let mut r = Rng::new(a.seed ^ 0xC15);
@@ -255,6 +347,14 @@ pub fn run(a: &Args) -> i32 {
             // that anything the failed record still does after recovery (shadowing by sequence
             // number, resurrection) meets an acknowledged write
             w.nkeys = 4;
+        }
+        if bi % 4 == 3 {
+            // commit-log records of several 32 KiB blocks: a failing write lands in the middle
+            // of a record, after some of its fragments have reached the file
+            cfg.max_memtable_size = 512 * 1024;
+            w.max_value = 100_000;
+            w.nkeys = 8;
+            w.txns = w.txns.min(30);
         }
         w.close_at_end = tr.chance(1, 2);
         let seed = a.seed.wrapping_add(1000 + bi as u64);
